@@ -774,10 +774,10 @@ def read_corpus():
             text, n1 = json.JSONDecoder().raw_decode(rest2)
             opts = rest2[n1:].strip()
             d = _yaml.safe_load(text)
-            lib = libgen.Lib(d["library"], d.get("language", lang), d["declarations"])
+            d.setdefault("language", lang)
             specs.append(dict(tag="corpus-file:yaml%d" % i, config="gen", yaml_text=text, yaml_name=d["library"] + ".yaml",
                               options=[] if opts in ("", "-") else opts.split(","), language=None, incdirs=[],
-                              header=hdrgen.header(lib), gen=True))
+                              headers=hdrgen.headers_from_dict(d), gen=True))
     return specs, cases
 
 
